@@ -70,6 +70,11 @@ theorem multi_assign_two_phase (s : Places.PS) (lhs : List Places.Cell) (rhs : L
     Places.assignMulti s lhs rhs = Places.goAssign s lhs rhs :=
   C02Multi.assignMulti_eq_go s lhs rhs
 
+/-- `Comp.assign2` (the fast path for two places) is the same two-phase assignment -/
+theorem multi_assign_two_phase_assign2 (s : Places.PS) (c0 c1 : Places.Cell) (r0 r1 : Places.Rhs) :
+    Places.assign2 s c0 c1 r0 r1 = Places.goAssign s [c0, c1] [r0, r1] :=
+  C02Multi.assign2_eq_go s c0 c1 r0 r1
+
 /-- non-vacuity: `X, Y = Y, X` swaps -/
 example :
     let s : Places.PS := { vars := [.bool true, .bool false], arr := [], map := [], zero := .bool false, log := [] }
